@@ -2,6 +2,7 @@
 import DSModel.Cpc.Input
 import DSModel.Cpc.Estimator
 import DSModel.Cpc.Union
+import DSModel.Cpc.Wire
 namespace DS.Cpc
 
 structure Tabs where
@@ -9,6 +10,8 @@ structure Tabs where
   est : EstTables
   minLgK : Nat
   maxLgK : Nat
+  comp : CompTables
+  wire : WireConsts
 
 inductive Obj where
   | sk (seed : UInt64) (s : Sketch)
@@ -26,6 +29,12 @@ def Objs.get' (o : Objs) (i : Nat) : Option Obj := (o[i]?).join
 def observe (T : Tabs) (s : Sketch) : String :=
   let b := (List.range 3).map (fun i => s!"{hexF (lowerBound T.est s (i+1))} {hexF (upperBound T.est s (i+1))}")
   s!"S {s.lgK} {s.numCoupons} {boolStr (validate s)} {boolStr (s.numCoupons == 0)} {hexF (estimate T.est s)} {joinSp b}"
+
+def listNatHex (b : List Nat) : String :=
+  if b.isEmpty then "-" else b.foldl (fun s x => s ++ hexN 2 x) ""
+
+def serializeSketch (T : Tabs) (seed : UInt64) (s : Sketch) : List Nat :=
+  serializeCore T.wire T.comp (seedHash seed).toNat s ⟨s.kxp.toBits.toNat, s.hip.toBits.toNat⟩
 
 def stepLine (T : Tabs) (o : Objs) (w : List String) : Objs × String :=
   match w with
@@ -73,6 +82,21 @@ def stepLine (T : Tabs) (o : Objs) (w : List String) : Objs × String :=
     | some (.un useed u), some nid =>
       let r := getResult u
       (o.set' nid (.sk useed r), observe T r)
+    | _, _ => (o, "bad-op")
+  | ["ser", id] =>
+    match id.toNat? >>= o.get' with
+    | some (.sk seed s) => (o, "B " ++ listNatHex (serializeSketch T seed s))
+    | _ => (o, "bad-op")
+  | ["rt", id, nid] =>
+    -- serialize, deserialize into a new sketch, serialize that again
+    match id.toNat? >>= o.get', nid.toNat? with
+    | some (.sk seed s), some nid =>
+      let img := serializeSketch T seed s
+      match deserializeCore T.wire T.comp (seedHash seed).toNat img (fun b => Float.ofBits (UInt64.ofNat b)) with
+      | some (s', _) =>
+        let img' := serializeSketch T seed s'
+        (o.set' nid (.sk seed s'), observe T s' ++ " " ++ boolStr (img' == img) ++ " " ++ toString img.length)
+      | none => (o, "throw")
     | _, _ => (o, "bad-op")
   | ["copy", id, nid] =>
     match id.toNat? >>= o.get', nid.toNat? with
